@@ -1905,7 +1905,7 @@ def rev16(ir, instr, arg1, arg2):
 
 @sbuild.parse
 def extr(arg1, arg2, arg3, arg4):
-    compose = ExprCompose(arg2, arg3)
+    compose = ExprCompose(arg3, arg2)
     arg1 = compose[int(arg4):int(arg4)+arg1.size]
 
 
